@@ -233,9 +233,24 @@ func setup(tier string, seed uint64) {
 		}
 		handCFF = append(handCFF, data)
 	}
+	for _, f := range simhookAfterSetup {
+		f(seed)
+	}
 }
 
 var handCFF [][]byte
+
+func init() {
+	simhookAfterSetup = append(simhookAfterSetup, func(seed uint64) {
+		// charstrings that compute extreme operands for roll/index (may be refused)
+		for i := 0; i < 8; i++ {
+			t := tape.New(tape.CaseSeed(seed, "C02-handcff-extreme", uint64(i)))
+			handCFF = append(handCFF, simgen.HandCFFExtreme(t, 1+i%4))
+		}
+	})
+}
+
+var simhookAfterSetup []func(seed uint64)
 
 var handCmap []struct {
 	name string
@@ -577,7 +592,7 @@ func run(c *wk.Case) {
 			if t.Chance(1, 2) {
 				i = 8 + t.Draw(len(handCFF)-8)
 			}
-			src, srcName = handCFF[i], fmt.Sprintf("hand-made CFF #%d (0-7 with subroutines, 8-19 CID-keyed)", i)
+			src, srcName = handCFF[i], fmt.Sprintf("hand-made CFF #%d (0-7 with subroutines, 8-19 CID-keyed, 20-27 extreme operands for roll/index)", i)
 			c.Count("handmade_cff_cases", 1)
 		}
 		if dec == "cmap.Decode" && t.Chance(1, 8) {
